@@ -41,3 +41,20 @@ func TestVerifWitness_C17_scanInLine_pos_at_lexeme(t *testing.T) {
 	}
 	fmt.Println("WITNESS-HOLDS")
 }
+
+// C08 parser.parseTags#loop1.inv2.preserve (clause tag_position): the columns of a tag's range count UTF-16 units of the
+// comment text before it, not bytes.
+func TestVerifWitness_C08_parseTags_col16(t *testing.T) {
+	text := " a:é, tag:v"
+	tags := parseTags(text, Position{Line: 1, Column: 15, Offset: 14})
+	if len(tags) != 2 {
+		fmt.Printf("WITNESS-HOLDS (unexpected tag count %d)\n", len(tags))
+		return
+	}
+	// "tag" starts after " a:é, " = 6 UTF-16 units (7 bytes): column 15 + 1 + 6
+	if tags[1].Range.Start.Column != 22 {
+		fmt.Printf("WITNESS-FAILS comment text %q at column 15: tag %q starts at column %d, a client counts 22 (the 'é' before it is one UTF-16 unit, two bytes)\n", text, tags[1].Name, tags[1].Range.Start.Column)
+		return
+	}
+	fmt.Println("WITNESS-HOLDS")
+}
